@@ -126,6 +126,24 @@ func checkC01(c *Ctx, r *Report) {
 			"a proposal whose MID was already seen in the block is answered Defer", "duplicate MIDs within one block are no longer deferred: the same message can be accepted and delivered twice")
 	}
 
+	// ---- C01-chunk: the sender's frame headers
+	frameLenRule(c, r, pr, "C01-chunk")
+	// ---- C01-fullread: the receiver never relies on a single Read delivering a whole block
+	r.Rule("C01-fullread", 1, "no raw Read on the session reader")
+	nRaw := 0
+	for _, fn := range c.SrcFuncs(pkg) {
+		for _, ci := range callsTo(fn, false, "bufio.Reader.Read") {
+			if !strings.HasSuffix(pathOf(ci.Common().Args[0]), ".rd") {
+				continue
+			}
+			nRaw++
+			accum := accumulatingRead(ci)
+			r.Check("C01-fullread", fnName(fn), "raw "+c.exprAt(fn, ci.Pos()), c.pos(ci.Pos()), accum,
+				"the count is accumulated and the remainder requested again", "a single Read on the session reader may return part of a block (any segmentation of the stream is legal): the rest is then parsed as frame markers")
+		}
+	}
+	r.Add("C01-fullread", "fbb", "raw Read calls on Session.rd", "fbb").OK("%d raw Read call(s) on the session reader examined; blocks are read byte-wise or with ReadString", nRaw)
+
 	// ---- C01-block
 	blockRule(c, r, pr, "C01-block")
 
@@ -277,5 +295,186 @@ func closeRule(c *Ctx, r *Report, rule string) {
 		} else {
 			o.Bad("this return can be reached after the connection was used, without the deferred close being registered: the connection stays open")
 		}
+	}
+}
+
+// linForm is a sum of lengths of string values plus a constant.
+type linForm struct {
+	lens map[ssa.Value]int
+	k    int64
+	ok   bool
+}
+
+func newLin() *linForm { return &linForm{lens: map[ssa.Value]int{}, ok: true} }
+
+func (l *linForm) addValue(v ssa.Value) {
+	switch x := v.(type) {
+	case *ssa.Const:
+		k, ok := constInt(x)
+		if !ok {
+			l.ok = false
+		}
+		l.k += k
+	case *ssa.BinOp:
+		if x.Op.String() != "+" {
+			l.ok = false
+			return
+		}
+		l.addValue(x.X)
+		l.addValue(x.Y)
+	case *ssa.Call:
+		if callName(&x.Call) == "builtin.len" {
+			l.lens[x.Call.Args[0]]++
+			return
+		}
+		l.ok = false
+	default:
+		l.ok = false
+	}
+}
+
+func (l *linForm) equal(m *linForm) bool {
+	if !l.ok || !m.ok || l.k != m.k || len(l.lens) != len(m.lens) {
+		return false
+	}
+	for v, n := range l.lens {
+		if m.lens[v] != n {
+			return false
+		}
+	}
+	return true
+}
+
+// frameLenRule: the length bytes the sender puts in the SOH header and in each STX block are in
+// range (no wrap of the one-byte field) and announce exactly the bytes that follow.
+func frameLenRule(c *Ctx, r *Report, pr *prover, rule string) {
+	r.Rule(rule, 4, "SOH header and STX data blocks: the one-byte length is in range and announces exactly the bytes that follow")
+	fn := c.Func("fbb", "(*Session).writeCompressed")
+	if fn == nil {
+		r.Fail(rule, "anchor writeCompressed not found")
+		return
+	}
+	where := fnName(fn)
+	foundSTX, foundSOH := false, false
+	for _, ci := range callsTo(fn, false, "bufio.Writer.Write") {
+		sl, ok := ci.Common().Args[1].(*ssa.Slice)
+		if !ok {
+			continue
+		}
+		al, ok := sl.X.(*ssa.Alloc)
+		if !ok {
+			continue
+		}
+		var marker int64 = -1
+		var lenByte ssa.Value
+		for _, ref := range *al.Referrers() {
+			ia, ok := ref.(*ssa.IndexAddr)
+			if !ok {
+				continue
+			}
+			k, _ := constInt(ia.Index)
+			for _, r2 := range *ia.Referrers() {
+				if st, ok := r2.(*ssa.Store); ok {
+					if k == 0 {
+						marker, _ = constInt(st.Val)
+					} else if k == 1 {
+						lenByte = st.Val
+					}
+				}
+			}
+		}
+		if lenByte == nil {
+			continue
+		}
+		n := lenByte
+		if cv, ok := n.(*ssa.Convert); ok {
+			n = cv.X
+		}
+		switch marker {
+		case 2:
+			foundSTX = true
+			o := r.Add(rule, where, "STX length byte", c.pos(ci.Pos()))
+			switch {
+			case !pr.LE(nil, false, 1, n, false, 0, ci):
+				o.Bad("the length of a data block is not proven >= 1: an empty block is sent with length byte 0, which every B2F receiver (this one included) reads as 256 bytes - e.g. when the compressed size is an exact multiple of the chunk size")
+			case !pr.LE(n, false, 0, nil, false, 255, ci):
+				o.Bad("the length of a data block is not proven <= 255: the length byte wraps")
+			default:
+				o.OK("1 <= length <= 255 holds where the STX header is written (loop condition and chunk size bound)")
+			}
+			// the bytes that follow: a loop bounded by the same length, or a write of a slice of that length
+			o = r.Add(rule, where, "block body has the announced length", c.pos(ci.Pos()))
+			okBody := false
+			eachInstr(fn, func(_ *ssa.BasicBlock, _ int, in ssa.Instruction) {
+				if b, isB := in.(*ssa.BinOp); isB && b.Op.String() == "<" && b.Y == n {
+					okBody = true // for i := 0; i < msgLen; i++ { WriteByte }
+				}
+				if w, isCall := in.(*ssa.Call); isCall && callName(&w.Call) == "bufio.Writer.Write" && w != ci {
+					if lc, isLen := n.(*ssa.Call); isLen && callName(&lc.Call) == "builtin.len" && lc.Call.Args[0] == w.Call.Args[1] {
+						okBody = true // Write(chunk) with length byte len(chunk)
+					}
+				}
+			})
+			if okBody {
+				o.OK("the bytes written after the header are counted by the same value as the length byte")
+			} else {
+				o.Bad("the number of bytes written after the STX header is not tied to the length byte")
+			}
+		case 1:
+			foundSOH = true
+			o := r.Add(rule, where, "SOH length byte", c.pos(ci.Pos()))
+			switch {
+			case !pr.LE(nil, false, 0, n, false, 0, ci):
+				o.Bad("the header length is not proven >= 0")
+			case !pr.LE(n, false, 0, nil, false, 255, ci):
+				o.Bad("the header length (title + offset + 2) is not proven <= 255 where it is narrowed to one byte: a long title (e.g. a subject of 36 non-ASCII characters, word-encoded) makes the length byte wrap and the receiver aborts with a header length mismatch")
+			default:
+				o.OK("0 <= length <= 255 holds where the SOH header is written (title bounded by its encoder, offset by its decimal width)")
+			}
+			// the bytes between this header and the flush are what the length announces
+			o = r.Add(rule, where, "header body has the announced length", c.pos(ci.Pos()))
+			want := newLin()
+			want.addValue(n)
+			got := newLin()
+			blk := ci.Block()
+			started, flushed := false, false
+			for _, in := range blk.Instrs {
+				if in == ssa.Instruction(ci.(*ssa.Call)) {
+					started = true
+					continue
+				}
+				if !started || flushed {
+					continue
+				}
+				w, isCall := in.(*ssa.Call)
+				if !isCall {
+					continue
+				}
+				switch callName(&w.Call) {
+				case "bufio.Writer.WriteString":
+					got.lens[w.Call.Args[1]]++
+				case "bufio.Writer.WriteByte":
+					got.k++
+				case "bufio.Writer.Flush":
+					flushed = true
+				case "bufio.Writer.Write", "bufio.Writer.WriteRune", "fmt.Fprintf", "fmt.Fprint", "fmt.Fprintln", "io.WriteString":
+					got.ok = false
+				}
+			}
+			switch {
+			case !want.ok || !got.ok || !flushed:
+				o.Bad("could not relate the announced header length to the bytes written before the flush (unresolved: length is not a sum of len() terms and constants, or the header is not written by WriteString/WriteByte in one block)")
+			case !want.equal(got):
+				o.Bad("the SOH header announces a length that differs from the bytes written after it (title, NUL, offset, NUL): the receiver reports a header length mismatch")
+			default:
+				o.OK("announced length = sum of the lengths of the %d strings written + %d separator byte(s)", len(got.lens), got.k)
+			}
+		}
+	}
+	if !foundSTX {
+		r.Add(rule, where, "STX length byte", c.pos(fn.Pos())).Bad("no write of an STX block header found (unresolved)")
+	}
+	if !foundSOH {
+		r.Add(rule, where, "SOH length byte", c.pos(fn.Pos())).Bad("no write of an SOH header found (unresolved)")
 	}
 }
